@@ -231,7 +231,7 @@ def match_known(prop, sig, known=None):
         if k.get('property') != prop or k.get('status') != 'open':
             continue
         ks = k.get('signature') or {}
-        if ks and all(sig.get(a) == b for a, b in ks.items()):
+        if ks and all((sig.get(a) in b) if isinstance(b, list) else (sig.get(a) == b) for a, b in ks.items()):
             return k
     return None
 
